@@ -601,6 +601,17 @@ def ctor_catalogue():
         gas = df.copy()
         gas.iloc[10, 0] = -1.0
         items.append((f"DailyBaselineData(gas, one negative day, {tz})", lambda df=gas: DailyBaselineData(df.copy(), is_electricity_data=False), [P + "negative_meter_values"]))
+    # a span counted on the local calendar: 329 days from standard time into daylight-saving time is 329 days, not 328
+    for start, n, want in (("2018-11-10", 329, []), ("2018-11-10", 328, [P + "incorrect_number_of_total_days"]), ("2019-06-01", 365, []), ("2019-06-01", 366, [P + "incorrect_number_of_total_days"])):
+        idx = pd.date_range(start, periods=n, freq="D", tz="US/Pacific")
+        dfx = pd.DataFrame({"observed": rng.random(n) + 1.0, "temperature": rng.random(n) * 50 + 30}, index=idx)
+        items.append((f"DailyBaselineData({n} daily rows from {start}, US/Pacific)", lambda df=dfx: DailyBaselineData(df.copy(), is_electricity_data=True), want))
+    # billing reads on a regular 28-day calendar (inferred as an anchored weekly frequency) and on calendar months
+    for label, midx in (("every 28 days", pd.date_range("2020-01-05", periods=14, freq="28D", tz="US/Pacific")), ("month starts", pd.date_range("2021-01-01", periods=13, freq="MS", tz="US/Pacific"))):
+        meter = pd.Series(rng.random(len(midx)) * 500 + 300, index=midx)
+        tidx = pd.date_range(midx[0] - pd.Timedelta(days=3), midx[-1] + pd.Timedelta(days=3), freq="h")
+        temp = pd.Series(rng.random(len(tidx)) * 40 + 30, index=tidx)
+        items.append((f"BillingBaselineData.from_series(reads {label})", lambda a=meter, b=temp: BillingBaselineData.from_series(a.copy(), b.copy(), is_electricity_data=True), []))
     # hourly data classes: complete year; meter data is optional for reporting (temperature-only frames are well formed)
     from opendsm.eemeter.models.hourly.data import HourlyBaselineData, HourlyReportingData
     for tz in ("US/Pacific", "Europe/Berlin"):
